@@ -55,7 +55,7 @@ fn make_case(forms: &[usize], iface_oneway: bool, variant: usize) -> Case {
         item.members.push(Member::Method(z));
     }
     let mut files = support();
-    files.push(ProjFile::from_doc("obs", observed_header(item)));
+    files.push(ProjFile::from_doc_styled("obs", observed_header(item), forms.iter().sum::<usize>() % 3 == 1));
     let oi = files.len() - 1;
     let exp = expect_observed(&files, oi);
     let doc = files[oi].doc.as_ref().unwrap();
